@@ -1237,7 +1237,9 @@ fn is_file_set_member(file_name: &str, file_prefix: &str, file_ext: &str) -> boo
 }
 
 fn read_file_name_ts(file_name: &str) -> Result<&str, io::Error> {
-    file_name.split('.').skip(1).next().ok_or_else(|| {
+    // File names are `{prefix}.{date}.{counter}.{id}.{ext}`
+    // The prefix may contain `.`s itself, so count segments from the end
+    file_name.rsplit('.').nth(3).ok_or_else(|| {
         io::Error::new(
             io::ErrorKind::Other,
             "could not determine timestamp from filename",
